@@ -141,6 +141,28 @@ def run_job(job):
             # partition cannot be completed by run()/step() (its supervisor step would use the previous partition's slot); "rollout:99" = that horizon
             hist = [f"rollout:{min(int(c.split(':')[1]), G.max_steps - int(onp.asarray(gs0.step)))}" if c.startswith("rollout:") else c for c in run["history"]]
             hist = [c for c in hist if c != "rollout:0"] or ["reset"]
+            if "gymfull" not in hist:
+                # never leave rex's horizon: at most max_steps partitions are begun (the step counter is clipped beyond, the last partition would be
+                # executed again and overwrite ring slots that its own readers still need - not a behaviour any property speaks about)
+                budget, kept = G.max_steps - int(onp.asarray(gs0.step)), []
+                for c in hist:
+                    need = int(c.split(":")[1]) if c.startswith("rollout:") else (0 if c in ("gymstale",) else 1)
+                    if need > budget:
+                        break
+                    budget -= need
+                    kept.append(c)
+                hist = kept or ["reset"]
+            if "gymstale" in hist:
+                # a stateless agent inside the horizon: every other step() is overridden with the SAME (stale) step state and output
+                k = hist.index("gymstale")
+                nst = max(G.max_steps - 1 - int(onp.asarray(gs0.step)), 0)
+                hist = hist[:k] + ["reset"] + [("step" if (j % 3 == 2) else "stepx") for j in range(nst)] + hist[k + 1:]
+            if "gymfull" in hist:
+                # a full-length gym-style episode: reset() + max_steps x step(); the last step() runs the non-supervisor part of the LAST partition
+                # (the only way to reach it: rollouts and run() stop one partition earlier)
+                k = hist.index("gymfull")
+                nst = G.max_steps - int(onp.asarray(gs0.step))
+                hist = hist[:k] + ["reset"] + [("stepo" if (j % 3 == 2) else "step") for j in range(max(nst, 0))] + hist[k + 1:]
             probes.LOG.clear()
             rn = runner[bool(run.get("jit", True))]
             if rf is not None:
@@ -160,7 +182,7 @@ def run_job(job):
                 ref = {n["name"]: [] for n in cfg["nodes"]}
                 for le in compiled.log_for_run(ar["log"], cfg, rngidx):
                     ref[le["kind"]].append(le)
-            t = compiled.project_run(st, cfg, gs0, hist, log, gs_f, rngidx, f"{tagm}/r{ri}", rec=rec, ref=ref)
+            t = compiled.project_run(st, cfg, gs0, hist, log, gs_f, rngidx, f"{tagm}/r{ri}", rec=rec, ref=ref, xover=rn.xover)
             if opts.get("skip"):
                 t["skip"] = list(opts["skip"])
             out["runs"].append(t)
@@ -225,7 +247,7 @@ def api_job(job):
         got_p = int(onp.asarray(gs0.params[cfg["nodes"][0]["name"]].p))
         out["checks"].append(dict(kind="init_clip", args=[ea, sa], expected=[exp_e, exp_s, 77], got=[got_e, got_s, got_p],
                                   ok=(got_e == exp_e and got_s == exp_s and got_p == 77)))
-        if exp_s < P - 1:
+        if exp_s < P - 1 and got_e == exp_e and got_s == exp_s:   # (a wrongly clipped index is already reported above; the run is judged from the clipped state only)
             st = static_for(gs0)
             probes.LOG.clear()
             gs_f = rj.exec_history(gs0, ["run"])
